@@ -636,7 +636,8 @@ void Ports::dispatch(const char *m, rtosc::RtData &d, bool base_dispatch) const
             int port_num = impl->remap[t];
 
             //Verify the chosen port is correct
-            if(__builtin_expect(impl->hard_match(port_num, m), 1)) {
+            if(__builtin_expect(impl->fixed[port_num].length() == len &&
+                        impl->hard_match(port_num, m), 1)) {
                 const Port &port = ports[impl->remap[t]];
                 if(!port.ports)
                     d.matches++;
